@@ -120,6 +120,12 @@ check("C11", "model_checking", "simkernel+realproc",
       "Trusted: virtual-time cost model (a blocking call costs its timeout, a loop iteration 1 ms), 50 ms phase grid, vlib/simkernel.py; gevent/eventlet loops run with a stubbed hub (sleep only).",
       "DESIGN.md section 3, C11")
 
+check("C13", "model_checking", "gsched",
+      "explicit-state model checking of the real ThreadWorker under a controlled scheduler: breadth-first search over environment histories delivered at quiescence (connect, stolen accept, keep-alive / close / gated / half request, rest, client close, gate release, tick, simultaneous pairs) with canonical-state deduplication, and inside every transition all schedules of main loop and pool threads with a bounded number of deviations at the scheduling points; invariants at every quiescent state, bounded liveness by a drain continuation from every state",
+      "7 (thorough 13) configurations of threads / worker_connections / keepalive; quick: ~4.9k distinct states, ~23k transitions, ~208k complete executions of the real run()/accept()/handle()/finish_request()/murder_keepalived() code with selector, sockets, executor, futures, lock and clock substituted. Checked: nr_conns equals the open accepted connections and never exceeds the limit, every open connection is in exactly one of poller / job, _keep members are registered, idle connections are closed by the first reaper pass after their deadline and not before, no close while a request is handled, no use after close / double register; from every state: complete requests are dispatched while a thread is free, everything is closed and nr_conns == 0 once clients left, run() returns after TERM.",
+      "Trusted: vlib/gsched.py and vlib/gtbench.py (simulated selector/sockets/executor); scheduling points are operations on shared objects, the code between two points is atomic (so `nr_conns += 1` is one step, as on the CPython 3.12 interpreter here - on 3.7-3.9 interpreters it is not); deviation bound 1 (thorough 2); one known finding (busy loop at capacity) is listed.",
+      "DESIGN.md section 3, C13; Appendix D")
+
 ALL = ["C%02d" % i for i in range(1, 21)]
 for pid in ALL:
     if pid not in CHECKS:
@@ -144,6 +150,8 @@ m = {
          "kind_free_text": "real Arbiter.run() driven inside a deterministic simulated kernel; explicit-state search over quiescent states + mid-flight event injection at every delivery point"},
         {"name": "simkernel+realproc", "path": "vlib/realproc.py", "serves_properties": ["C04", "C10", "C11", "C14", "C18", "C20"],
          "kind_free_text": "real gunicorn masters/workers started from the working tree, connections held in chosen phases by gates; finite scenario products walked completely"},
+        {"name": "gsched", "path": "vlib/gsched.py", "serves_properties": ["C13", "C18"],
+         "kind_free_text": "greenlet-based controlled scheduler (deviation-bounded, replayable) + simulated selector/sockets/executor around the real ThreadWorker"},
         {"name": "simfs", "path": "vlib/simfs.py", "serves_properties": ["C17"],
          "kind_free_text": "real Pidfile class on an in-memory file system with a syscall log and crash injection; conformance replay on a real directory"},
         {"name": "explore+gparse", "path": "vlib/gparse.py", "serves_properties": ["C01", "C06", "C07", "C12"],
